@@ -99,7 +99,36 @@ pub open spec fn sat_mul_u64(a: u64, b: u64) -> u64 { if a * b > u64::MAX { u64:
 pub open spec fn max_u64(a: u64, b: u64) -> u64 { if a >= b { a } else { b } }
 pub open spec fn min_u64(a: u64, b: u64) -> u64 { if a <= b { a } else { b } }
 
-pub uninterp spec fn spec_quality(c: &SrtlaConnection, now: u64) -> f64;
+// the quality multiplier as the documented function of the link's NAK history, age and smoothed RTT (float operations uninterpreted; the
+// range [0.35, 1.1 x 1.03] is Kani's: kx quality_multiplier_range).  Opaque: selection proofs only need it to be a function of (link, time);
+// what the definition buys is (a) the real body is checked against it, (b) lemma_quality_ignores_stall_history.
+pub uninterp spec fn spec_exp_neg_ratio(a: f64, h: f64) -> f64;      // exp(-a / h)
+#[verifier::external_body] pub fn f64_exp_neg_ratio(a: f64, h: f64) -> (r: f64) ensures r == spec_exp_neg_ratio(a, h) { (-a / h).exp() }
+pub open spec fn spec_rtt_bonus(c: &SrtlaConnection) -> f64 {
+    let s = spec_srtt(c.rtt.kalman_rtt.x);
+    if fle(s, 0.0f64) { 1.0f64 } else { spec_f64_max(spec_f64_min((200.0f64).div_spec(spec_f64_max(s, 50.0f64)), 1.03f64), 1.0f64) }
+}
+#[verifier::opaque]
+pub open spec fn spec_quality(c: &SrtlaConnection, now: u64) -> f64 {
+    if sub_sat(now, c.reconnection.connection_established_ms) < 30_000 {
+        if c.congestion.nak_count == 0 { 1.1f64 } else { 0.98f64 }
+    } else {
+        let qm = if c.congestion.last_nak_time_ms != 0 {
+            let age = sub_sat(now, c.congestion.last_nak_time_ms);
+            let mult = (1.0f64).sub_spec((0.5f64).mul_spec(spec_exp_neg_ratio(u64_to_f64(age), 2000.0f64)));
+            if c.congestion.nak_burst_count >= 5 && age < 3000 { mult.mul_spec(0.7f64) } else { mult }
+        } else if c.congestion.nak_count == 0 { 1.1f64 } else { 1.0f64 };
+        qm.mul_spec(spec_rtt_bonus(c))
+    }
+}
+// ASSUMED here, proved by Kani on the real function (kx: quality_multiplier_range): the multiplier stays in its documented range
+#[verifier::external_body] pub proof fn lemma_quality_in_range(c: &SrtlaConnection, now: u64) ensures q_ok(spec_quality(c, now)) {}
+// C12: the quality factor reads no stall state -- two links that differ only in stall history (flags, latch, rejoin run, engagement counter,
+// probe counter, pull state) score the same
+pub proof fn lemma_quality_ignores_stall_history(a: &SrtlaConnection, b: &SrtlaConnection, now: u64)
+    requires a.reconnection == b.reconnection, a.congestion == b.congestion, a.rtt == b.rtt,
+    ensures spec_quality(a, now) == spec_quality(b, now),  // @ob C11+C12.select.quality.depends_only_on_age_nak_history_and_rtt_never_on_stall_history
+{ reveal(spec_quality); }
 // ---- float-lemma table: ASSUMED here, PROVED bit-precisely by Kani on real f64 arithmetic (kx/src/lemmas.rs, same formulas) ----
 pub open spec fn q_ok(q: f64) -> bool { fge(q, 0.35f64) && fle(q, 1.2f64) }      // quality multiplier range [0.35, 1.1*1.03 <= 1.2]
 pub open spec fn cap_ok(c: f64) -> bool { fge(c, 0.1f64) && fle(c, 1.0f64) }     // soft-cap factor range [0.1, 1]
@@ -238,14 +267,7 @@ impl SrtlaConnection {
 }
 '''
 
-QUALITY_STUB = r'''
-// calculate_quality_multiplier: exp() and float arithmetic; its range [0.35, 1.1*1.03] is proved by Kani
-// on the real function (kx: quality_multiplier_range).  Here: a deterministic function of (link state, time).
-#[verifier::external_body]
-pub fn calculate_quality_multiplier(conn: &SrtlaConnection, current_time_ms: u64) -> (r: f64)
-    ensures r == spec_quality(conn, current_time_ms), q_ok(r),
-{ unimplemented!() }
-'''
+QUALITY_STUB = ''
 
 ENH_STUBS = r'''
 // float code decided by Kani on the real functions (kx: in_flight_cap_*, soft_cap_range)
@@ -254,8 +276,6 @@ pub uninterp spec fn spec_soft_cap(c: &SrtlaConnection) -> f64;
 pub fn cc_soft_cap_multiplier(conn: &SrtlaConnection) -> (r: f64)
     ensures r == spec_soft_cap(conn), cap_ok(r),
 { unimplemented!() }
-#[verifier::external_body]
-pub fn log_quality_state(c: &SrtlaConnection, quality_mult: f64, base: f64, final_score: f64, now_ms: u64) { }
 '''
 
 # ------------------------------------------------------------------ stall latch / pull (C13, C12)
@@ -370,7 +390,8 @@ RESET_CORE_ENSURES = [
             && final(self).stall_recovery_since_ms == 0 && !final(self).silence_pulled && final(self).stall_probe_counter == 0'''),
     C('C01+C04.acct.reset_core_state.queue_dropped', 'final(self).batch_sender.queue.len() == 0 && final(self).batch_sender.wf()'),
     'final(self).wf()',
-    'final(self).conn_id == old(self).conn_id', 'final(self).reconnection == old(self).reconnection', 'final(self).last_received == old(self).last_received',
+    C('C19.acct.reset_core_state.keeps_the_identity_reloads_match_on', 'final(self).conn_id == old(self).conn_id && final(self).label == old(self).label && final(self).local_ip == old(self).local_ip'),
+    'final(self).reconnection == old(self).reconnection', 'final(self).last_received == old(self).last_received',
     'final(self).congestion == old(self).congestion', 'final(self).stall_gate_events == old(self).stall_gate_events', 'final(self).silence_pulls == old(self).silence_pulls',
     'final(self).rtt == old(self).rtt', 'final(self).last_keepalive_sent == old(self).last_keepalive_sent', 'final(self).last_sent == old(self).last_sent',
 ]
@@ -385,6 +406,7 @@ def RESET_CORE_ENSURES_PUBLIC(who):
             && final(self).stall_recovery_since_ms == 0 && !final(self).silence_pulled'''),
         C('C01+C04.acct.%s.queue_dropped' % who, 'final(self).batch_sender.queue.len() == 0 && final(self).batch_sender.wf()'),
         'final(self).wf()', 'final(self).stall_probe_counter == 0', 'final(self).quality_cache == old(self).quality_cache',
+        C('C19.acct.%s.keeps_the_identity_reloads_match_on' % who, 'final(self).conn_id == old(self).conn_id && final(self).label == old(self).label && final(self).local_ip == old(self).local_ip'),
     ]
 
 
@@ -462,7 +484,7 @@ CLASSIC_ENSURES = [
             && (forall|j: int| 0 <= j < conns.len() && (#[trigger] conns[j]).eligible(now_ms) ==> conns[j].spec_score() <= conns[r.unwrap() as int].spec_score())'''),
     C('C10.select.classic.first_maximum_wins', '''r is Some ==>
             (forall|j: int| 0 <= j < r.unwrap() && (#[trigger] conns[j]).eligible(now_ms) ==> conns[j].spec_score() < conns[r.unwrap() as int].spec_score())'''),
-    C('C03.select.classic.returns_a_link_whenever_a_connected_eligible_link_exists',
+    C('C01+C03.select.classic.returns_a_link_whenever_a_connected_eligible_link_exists',
       '(exists|i: int| 0 <= i < conns.len() && (#[trigger] conns[i]).eligible(now_ms) && conns[i].connected) ==> r is Some'),
     C('C03+C10.select.classic.none_only_if_no_scored_candidate', 'r is None ==> forall|j: int| 0 <= j < conns.len() && (#[trigger] conns[j]).eligible(now_ms) ==> conns[j].spec_score() < 0'),
 ]
@@ -477,7 +499,7 @@ CLASSIC_INV = [
 ENH_ENSURES = [
     'final(conns).len() == old(conns).len()',
     'forall|i: int| 0 <= i < old(conns).len() ==> q_ok((#[trigger] final(conns)[i]).quality_cache.multiplier)',
-    C('C03.select.enhanced.returns_a_link_whenever_a_connected_eligible_link_exists',
+    C('C01+C03.select.enhanced.returns_a_link_whenever_a_connected_eligible_link_exists',
       '(exists|i: int| 0 <= i < old(conns).len() && (#[trigger] old(conns)[i]).eligible(current_time_ms) && old(conns)[i].connected) ==> r is Some'),
     C('C11.select.enhanced.capped_link_never_chosen_while_an_unconstrained_link_exists',
       'r is Some && any_unc(old(conns)@, current_time_ms) ==> !spec_cap_exceeded(&old(conns)[r.unwrap() as int])'),
@@ -490,7 +512,7 @@ ENH_INV = [
     'any_unconstrained == any_unc(old(conns)@, current_time_ms)',
     'forall|j: int| 0 <= j < conns.len() ==> q_ok((#[trigger] conns[j]).quality_cache.multiplier)',
     'best_idx is None ==> best_score == -1.0f64',
-    C('C03.select.enhanced.returns_a_link_whenever_a_connected_eligible_link_exists',
+    C('C01+C03.select.enhanced.returns_a_link_whenever_a_connected_eligible_link_exists',
       'forall|j: int| 0 <= j < i_nx && enh_candidate(&#[trigger] old(conns)[j], current_time_ms, any_unconstrained) ==> best_idx is Some'),
     C('C04+C11.select.enhanced.result_is_a_connected_candidate', 'best_idx is Some ==> best_idx.unwrap() < i_nx && enh_candidate(&old(conns)[best_idx.unwrap() as int], current_time_ms, any_unconstrained)'),
     C('C04+C11.select.enhanced.result_is_a_connected_candidate', 'current_score is Some ==> last_idx is Some && last_idx.unwrap() < i_nx && enh_candidate(&old(conns)[last_idx.unwrap() as int], current_time_ms, any_unconstrained)'),
@@ -517,7 +539,7 @@ ENH_SPLICES = [
             assert(cap_ok(cap_mult));
             assert(gate_mult == 0.02f64 || gate_mult == 1.0f64);
             lemma_score_gt_neg1(co.spec_score() as i32, spec_phase_weight(co.phase), qm, cap_mult, gate_mult);
-            assert(fgt(score, -1.0f64));  // @ob C03.select.enhanced.returns_a_link_whenever_a_connected_eligible_link_exists
+            assert(fgt(score, -1.0f64));  // @ob C01+C03.select.enhanced.returns_a_link_whenever_a_connected_eligible_link_exists
         }''', 'before'),
     ('    best_idx\n}', '''    proof {
         // C11 hysteresis: the previous link is left only if it was skipped or the winner reaches 1.10 x its score
@@ -556,17 +578,17 @@ pub open spec fn spec_enh_score(c: &SrtlaConnection, unc: bool, enable_quality: 
 // R12: helper generated from `conns.iter().any(|c| {..})`; the predicate text is copied from the source
 pub fn any_unconstrained_helper(conns: &[SrtlaConnection], current_time_ms: u64) -> (r: bool)
     ensures
-        r == (exists|j: int| 0 <= j < conns.len() && spec_unconstrained(&#[trigger] conns[j], current_time_ms)),  // @ob C11+C03.select.enhanced.any_unconstrained_predicate
+        r == (exists|j: int| 0 <= j < conns.len() && spec_unconstrained(&#[trigger] conns[j], current_time_ms)),  // @ob C01+C03+C11.select.enhanced.any_unconstrained_predicate
 {
     let mut c_nx: usize = 0;
     while c_nx < conns.len()
         invariant c_nx <= conns.len(),
-            forall|j: int| 0 <= j < c_nx ==> !spec_unconstrained(&#[trigger] conns[j], current_time_ms),  // @ob C11+C03.select.enhanced.any_unconstrained_predicate
+            forall|j: int| 0 <= j < c_nx ==> !spec_unconstrained(&#[trigger] conns[j], current_time_ms),  // @ob C01+C03+C11.select.enhanced.any_unconstrained_predicate
         decreases conns.len() - c_nx,
     {
         let c = &conns[c_nx]; c_nx += 1;
         if %s { proof {
-            assert(spec_unconstrained(&conns[c_nx - 1], current_time_ms));  // @ob C11+C03.select.enhanced.any_unconstrained_predicate
+            assert(spec_unconstrained(&conns[c_nx - 1], current_time_ms));  // @ob C01+C03+C11.select.enhanced.any_unconstrained_predicate
         } return true; }
     }
     false
@@ -627,7 +649,7 @@ GATE_ENSURES = [
     C('C04+C08+C12.select.apply_stall_gate.every_link_carries_the_configured_timeout', 'forall|i: int| 0 <= i < old(conns).len() ==> (#[trigger] final(conns)[i]).conn_timeout_ms == config.conn_timeout_ms'),
     C('C10+C12.select.apply_stall_gate.guard_off_clears_every_flag_and_latch', '''!config.stall_deselect ==> forall|i: int| 0 <= i < old(conns).len() ==> !(#[trigger] final(conns)[i]).stall_gated
             && !final(conns)[i].silence_pulled && final(conns)[i].stall_latched_since_ms == 0 && final(conns)[i].stall_recovery_since_ms == 0'''),
-    C('C03.select.apply_stall_gate.never_gates_the_last_usable_link', '''(exists|i: int| 0 <= i < final(conns).len() && (#[trigger] final(conns)[i]).usable(current_time_ms))
+    C('C01+C03.select.apply_stall_gate.never_gates_the_last_usable_link', '''(exists|i: int| 0 <= i < final(conns).len() && (#[trigger] final(conns)[i]).usable(current_time_ms))
             ==> exists|j: int| 0 <= j < final(conns).len() && (#[trigger] final(conns)[j]).usable(current_time_ms) && !final(conns)[j].stall_gated'''),
     C('C03+C04.select.apply_stall_gate.gated_only_while_a_healthy_link_exists', '''config.stall_deselect ==> forall|i: int| 0 <= i < old(conns).len() ==>
             (#[trigger] final(conns)[i]).stall_gated == (exists_healthy(final(conns)@, current_time_ms) && (final(conns)[i].spec_latched() || final(conns)[i].silence_pulled))'''),
@@ -719,7 +741,7 @@ IDX_REQUIRES = ['gate_pre_ok(old(conns)@)', WF_SEL('old(conns)'),
 IDX_ENSURES = [
     'final(conns).len() == old(conns).len()',
     'forall|i: int| 0 <= i < old(conns).len() ==> q_ok((#[trigger] final(conns)[i]).quality_cache.multiplier)',
-    C('C03.select.select_connection_idx.no_blackout_while_a_usable_uplink_exists',
+    C('C01+C03.select.select_connection_idx.no_blackout_while_a_usable_uplink_exists',
       '(exists|i: int| 0 <= i < final(conns).len() && (#[trigger] final(conns)[i]).usable(current_time_ms)) ==> r is Some'),
     'forall|i: int| 0 <= i < old(conns).len() ==> (#[trigger] final(conns)[i]).latch_wf()',
     C('C12.select.select_connection_idx.decision_never_changes_liveness_or_accounting', 'forall|i: int| 0 <= i < old(conns).len() ==> #[trigger] old(conns)[i].same_acct(&final(conns)[i])'),
@@ -790,9 +812,9 @@ IDX_SPLICES = [
 ]
 
 BESTQ_ENSURES = [
-    C('C04.select.select_best_quality_idx.never_a_registering_disconnected_or_stall_gated_link',
+    C('C03+C04+C13.select.select_best_quality_idx.never_a_registering_disconnected_or_stall_gated_link',
       'r is Some ==> r.unwrap() < conns.len() && conns[r.unwrap() as int].connected && conns[r.unwrap() as int].spec_sched() && !conns[r.unwrap() as int].stall_gated'),
 ]
 BESTQ_INV = ['i_nx <= conns.len()',
-             C('C04.select.select_best_quality_idx.never_a_registering_disconnected_or_stall_gated_link',
+             C('C03+C04+C13.select.select_best_quality_idx.never_a_registering_disconnected_or_stall_gated_link',
                'best_idx is Some ==> best_idx.unwrap() < i_nx && conns[best_idx.unwrap() as int].connected && conns[best_idx.unwrap() as int].spec_sched() && !conns[best_idx.unwrap() as int].stall_gated')]
